@@ -38,3 +38,14 @@ Theorem C09_single_byte_damage_rejected :
 Proof. exact damaged_value_rejected. Qed.
 Print Assumptions C09_single_byte_damage_rejected.
 Print Assumptions C09_value_checksum_same_on_both_sides.
+
+(* The hypothesis "the indexed checksum is not zero" in the theorems above cannot be dropped: zero marks
+   "no checksum" (empty and nil values, legacy tables) but it is also the CRC-64/ISO of non-empty values such as
+   f4 42 2f f4 42 2f f4 12; for such a value the per-read check accepts whatever the data file holds at its offset.
+   Replayed on the implementation as finding F-C09a (open: repairing it needs a format decision). *)
+Theorem C09_zero_checksum_refuted :
+  crc0_value <> [] /\ crc64iso crc0_value = 0 /\
+  forall (r : reader) (off : N) (v' : option bytes),
+    read_at (r_cd r) (r_data r) off = Ok v' -> get_value_at r off (crc64iso crc0_value) false = Ok v'.
+Proof. exact (conj (proj1 crc0_value_facts) (conj (proj2 crc0_value_facts) zero_checksum_value_unprotected)). Qed.
+Print Assumptions C09_zero_checksum_refuted.
